@@ -57,7 +57,7 @@ RUN_TIMEOUT_S = 60.0
 MIN_BUDGET = 220
 
 TIERS = {
-    'quick': {'runs': 24000, 'classes': 8, 'budget_s': 80},
+    'quick': {'runs': 20000, 'classes': 8, 'budget_s': 60},
     'thorough': {'runs': 500000, 'classes': 32, 'budget_s': 1100},
 }
 
@@ -250,17 +250,23 @@ def gen_comb(streams):
     case = {'kind': 'comb', 'gen': gen, 'widths': widths, 'cfg': cfg}
     vw = vec_widths(case)
     total = sum(vw)
+    sch = streams['sched']
+    cost = est_cost(case)
+    # pyrtl.Simulation costs ~1.5 us per net and step, FastSimulation compiles for ~2x the
+    # construction time of Simulation and then steps for free: big designs and long vector
+    # lists mostly go to FastSimulation, and Simulation gets a shorter vector list
+    if total <= 10:
+        pfast = 0.8 if (1 << total) * cost > 20000 else 0.25
+    else:
+        pfast = 0.75 if cost > 300 else 0.3
+    case['sim'] = 'fast' if sch.random() < pfast else 'sim'
     if total <= 10:
         case['exhaustive'] = True
         case['vectors'] = None
-        nvec = 1 << total
     else:
+        cap = 70 if case['sim'] == 'fast' else max(8, min(70, 20000 // cost))
         case['exhaustive'] = False
-        case['vectors'] = gen_vectors(streams['inputs'], vw, signed, est_cost(case))
-        nvec = len(case['vectors'])
-    sch = streams['sched']
-    pfast = 0.7 if nvec > 200 else 0.2
-    case['sim'] = 'fast' if sch.random() < pfast else 'sim'
+        case['vectors'] = gen_vectors(streams['inputs'], vw, signed, cap)
     return case
 
 
@@ -289,8 +295,7 @@ def est_cost(case):
     return c + 12 * sum(w)
 
 
-def gen_vectors(rng, vw, signed, cost):
-    cap = max(10, min(70, 45000 // max(cost, 1)))
+def gen_vectors(rng, vw, signed, cap):
     bsets = [boundary(w, signed) for w in vw]
     ncross = 1
     for s in bsets:
@@ -408,7 +413,8 @@ def run_seq(case, res):
         res.log.log('seq', 'cycle', [av, bv, sv], [prod, done])
         if op is not None and op['stable'] and (av, bv) != (op['A'], op['B']):
             op['stable'] = False
-            res.faults.hit('operand_change')
+            if not sv:
+                res.faults.hit('operand_change')      # changed without a new pulse
         if op is not None and op['stable'] and not sv and t > op['s']:
             exp = op['A'] * op['B']
             vt = tags + (['after_abort'] if op['after_abort'] else [])
